@@ -181,6 +181,7 @@ func (World) Generate(r *engine.RNG, tier string) *engine.Script {
 				sh.U = append(sh.U, pickSec(r))
 			}
 			expiries = append(expiries, int64(sh.U[0]+sh.U[1])*1000)
+			expiries = withOffline(r, sh, expiries)
 		case 9, 10:
 			op.Struct = "els_parse"
 			sh.Kind = "els"
@@ -193,6 +194,7 @@ func (World) Generate(r *engine.RNG, tier string) *engine.Script {
 			}
 			sh.U = []uint64{pickSec(r), off, uint64(r.Intn(2)) << 1}
 			expiries = append(expiries, int64(sh.U[0]+sh.U[1])*1000)
+			expiries = withOffline(r, sh, expiries)
 		case 11, 12:
 			op.Struct = "mls_parse"
 			sh.Kind = "mls"
@@ -205,6 +207,7 @@ func (World) Generate(r *engine.RNG, tier string) *engine.Script {
 				expiries = append(expiries, int64(e)*1000)
 			}
 			expiries = append(expiries, int64(sh.U[0]+sh.U[1])*1000)
+			expiries = withOffline(r, sh, expiries)
 		case 13, 14:
 			op.Struct = "leaseset_parse"
 			sh.Kind = "leaseset"
@@ -299,6 +302,12 @@ type entry struct {
 	validate func() error // expiry leg of Validate, nil if none
 	expiryMs int64
 	hasExp   bool
+	// a second deadline carried by the structure (the expiry of its offline
+	// block): "not expired a day before the expiry" is judged only when this one
+	// is a day ahead too — whether IsExpired() also honours it is the
+	// implementation's choice, but it can only ever make a structure expire sooner
+	alsoMs  int64
+	hasAlso bool
 	// strictAfter: IsExpired is "now > E" (true) / "E < now" — both strict; kept
 	// only for the in-band probe.
 }
@@ -422,6 +431,8 @@ func evalEntry(o *engine.Outcome, e *entry, ei, bi int, nowMs, subMsNs int64) {
 			if e.validate != nil && e.validate() == nil {
 				o.Probe("validate_accepts_a_structure_that_expired_a_day_ago:" + e.kind)
 			}
+		case -diff >= dayMs && !(-diff == dayMs && subMsNs > 0) && e.hasAlso && e.alsoMs-nowMs <= dayMs:
+			o.Probe("future_side_not_judged_offline_block_not_a_day_ahead")
 		case -diff >= dayMs && !(-diff == dayMs && subMsNs > 0):
 			o.Probe("judged_future_side")
 			if got {
@@ -562,7 +573,7 @@ func buildEntries(o *engine.Outcome, op *engine.Op) []*entry {
 			o.Probe("reference_frame_rejected:ls2")
 			return nil
 		}
-		es := []*entry{headerEntry("LeaseSet2", f.Published, f.Expires, ls.Published, ls.Expires, ls.PublishedTime, ls.ExpirationTime, ls.IsExpired)}
+		es := []*entry{withDeadline(headerEntry("LeaseSet2", f.Published, f.Expires, ls.Published, ls.Expires, ls.PublishedTime, ls.ExpirationTime, ls.IsExpired), op.Shape)}
 		ends := f.Ends
 		ll := ls.Leases()
 		es = append(es, &entry{kind: "LeaseSet2/leases", exact: func() string {
@@ -590,7 +601,7 @@ func buildEntries(o *engine.Outcome, op *engine.Op) []*entry {
 			o.Probe("reference_frame_rejected:els")
 			return nil
 		}
-		return []*entry{headerEntry("EncryptedLeaseSet", f.Published, f.Expires, ls.Published, ls.Expires, ls.PublishedTime, ls.ExpirationTime, ls.IsExpired)}
+		return []*entry{withDeadline(headerEntry("EncryptedLeaseSet", f.Published, f.Expires, ls.Published, ls.Expires, ls.PublishedTime, ls.ExpirationTime, ls.IsExpired), op.Shape)}
 	case "mls_parse":
 		f := parseFrame(o, op.Shape)
 		if f == nil {
@@ -601,7 +612,7 @@ func buildEntries(o *engine.Outcome, op *engine.Op) []*entry {
 			o.Probe("reference_frame_rejected:mls")
 			return nil
 		}
-		es := []*entry{headerEntry("MetaLeaseSet", f.Published, f.Expires, ls.Published, ls.Expires, ls.PublishedTime, ls.ExpirationTime, ls.IsExpired)}
+		es := []*entry{withDeadline(headerEntry("MetaLeaseSet", f.Published, f.Expires, ls.Published, ls.Expires, ls.PublishedTime, ls.ExpirationTime, ls.IsExpired), op.Shape)}
 		ents := ls.Entries()
 		for i := range ents {
 			if i >= len(f.Ends) {
@@ -786,6 +797,35 @@ func offsigEntry(os *offline_signature.OfflineSignature, exp uint64, kind string
 			}
 			return ""
 		}}
+}
+
+// withOffline gives one structure in three an offline block with its own,
+// independently drawn expiry (a transient key that outlives the structure, or
+// one that runs out before it).
+func withOffline(r *engine.RNG, sh *engine.Shape, expiries []int64) []int64 {
+	if !r.Chance(1, 3) {
+		return expiries
+	}
+	exp := pickSec(r)
+	if r.Chance(1, 2) && len(sh.U) >= 2 {
+		// near the structure's own expiry, on either side
+		exp = uint64(int64(sh.U[0]+sh.U[1]) + int64(r.PickInt(-3*86400, -86400-1, -3600, 3600, 86400+1, 3*86400, 30*86400)))
+		if exp > 0xFFFFFFFF {
+			exp = pickSec(r)
+		}
+	}
+	sh.Offline = &engine.OfflineShape{Transient: r.PickInt(7, 7, 11, 0), Expires: exp, Seed: r.Uint64() | 1}
+	return append(expiries, int64(exp)*1000)
+}
+
+// withDeadline records the offline block's expiry as the second deadline of a
+// header entry.
+func withDeadline(e *entry, sh *engine.Shape) *entry {
+	if sh != nil && sh.Offline != nil {
+		e.hasAlso, e.alsoMs = true, int64(sh.Offline.Expires)*1000
+		e.kind += "+offline-block"
+	}
+	return e
 }
 
 func headerEntry(kind string, pub, off uint64, gpub func() uint32, goff func() uint16, pt, et func() time.Time, exp func() bool) *entry {
